@@ -418,8 +418,15 @@ public:
   }
 
   void keepInMemory() {
-    memorySegment = galois::optional<segment_type>(computeSegment(0, numEdges));
-    load(*memorySegment, LazyObject<EdgeTy>::size_of::value);
+    // the whole graph: computeSegment(0, numEdges) stops at the first node
+    // whose edges end at numEdges when node 0 has no edges, leaving the
+    // remaining nodes unloaded for good
+    segment_type seg;
+    seg.nodeBegin = iterator(0);
+    seg.nodeEnd   = iterator(numNodes);
+    memorySegment = galois::optional<segment_type>(seg);
+    if (numNodes)
+      load(*memorySegment, LazyObject<EdgeTy>::size_of::value);
   }
 
   /**
